@@ -33,6 +33,14 @@ at any depth is an ERROR (`marshal_total_partial`, `marked_nested_rejected_err`)
 `convert.Convert` path of `Marshal` (`marshalC…`, with `marked_rejected_on_conversion_path` — once false: a
 recorded finding); /repo bb6ac26 (`known_length_list_refused`).
 
+Added by slice d16b (second deepening): the regenerated DECODER of unknown values (`unmarshalUnknownValue`, translated from
+cty/msgpack/unknown.go on every check) is tied to the model by a THEOREM for every extension item and every type — an
+induction over the refinement-entry loop, no side condition, errors up to their text (`unmarshal_unknown_generated`;
+`unmarshal_unknown_generated_plain` for this file's `unmarshal`, on streams without an extension item in the place of a
+numeric bound, which is every stream the encoder writes) — instead of a kernel-evaluated battery; "refinements are never
+narrowed or invented" holds of the regenerated encoder and decoder COMPOSED (`unknown_roundtrip_generated`); the known-length
+refusal and the absence of panics are stated of the regenerated decoder too.
+
 The full-strength statement `RoundtripCovers` is FALSE of the code as it exists;
 it is kept as a `def`, with three counterexamples (each the replay of a recorded
 finding) and the strongest partial theorem `roundtrip_covers_partial` (side condition `Fits`).
@@ -55,6 +63,7 @@ import CtyModel.Lemmas.d16KnownLen
 import CtyModel.Props.C08
 import CtyModel.Generated.Limits
 import CtyModel.Lemmas.MpUnknownFnsTie
+import CtyModel.Lemmas.d16bBridge
 namespace CtyModel
 namespace C16
 open Msgpack Refine
@@ -638,6 +647,71 @@ theorem marshal_unknown_never_panics_generated (E : Ext) (vt : Ty) (r : Rfn) (w 
     (Generated.MpUnknownFns.marshalUnknownValue E ⟨vt, r⟩ []).bind MpGo.assemble ≠ .panic w := by
   rw [marshal_unknown_generated]
   exact marshalUnknown_no_panic E vt r w
+
+/-! ### the regenerated DECODER (`unmarshalUnknownValue`, translated on every check)
+
+`Lemmas/d16bDecTie.lean` proves by induction over the refinement-entry loop that the translated decoder
+answers what the hand-written loop-carrying decoder (`D17.unmarshal`) answers — for EVERY extension item and EVERY
+requested type, no side condition, up to the TEXT of an error (`MpUnknownFnsTie.er`; `D16b.toV` reads the Go
+value answered as a model value).  `Lemmas/d16bBridge.lean` ties that decoder to the one the theorems above are
+about (`Msgpack.unmarshal`, whose known-length test is the separate scan `knownLenList`) on every refinement
+stream that holds no extension item where a numeric bound is read (`D16b.boundPlain`, decidable) — which is
+every stream `marshalUnknownValue` writes.  So the decoder-side clauses hold of what the source says now. -/
+
+/-- The decoder of unknown values as the source has it now (`unmarshalUnknownValue`, regenerated) computes
+what the model decoder computes: every type code, length word, body header, entry count, item stream and
+requested type; errors compared as errors (text erased), values and "not modelled" exactly. -/
+theorem unmarshal_unknown_generated [Refine.EqOracle] (E : Ext) (code : Int) (len : Nat) (hdr : ExtHdr) (stream : List Item)
+    (ty : Ty) :
+    MpUnknownFnsTie.er (D16b.toV (Generated.MpUnknownFns.unmarshalUnknownValue E (.atItem (.ext code len hdr stream)) ty)) =
+      MpUnknownFnsTie.er (D17.unmarshal E (.ext code len hdr stream) ty) :=
+  D16b.unmarshalUnknownValue_eq E code len hdr stream ty
+
+/-- … and what the decoder of THIS property's theorems (`unmarshal`) computes, on every stream without an
+extension item in the place of a numeric bound. -/
+theorem unmarshal_unknown_generated_plain [Refine.EqOracle] (E : Ext) (code : Int) (len : Nat) (hdr : ExtHdr)
+    (stream : List Item) (ty : Ty) (hp : ∀ v ∈ stream, D16b.boundPlain v = true) :
+    MpUnknownFnsTie.er (D16b.toV (Generated.MpUnknownFns.unmarshalUnknownValue E (.atItem (.ext code len hdr stream)) ty)) =
+      MpUnknownFnsTie.er (unmarshal E (.ext code len hdr stream) ty) := by
+  rw [D16b.unmarshalUnknownValue_eq, D16b.ext_bridge E code len hdr stream ty hp]
+
+/-- The regenerated decoder never panics, whatever it is positioned at (the deferred `recover`). -/
+theorem unmarshal_unknown_never_panics_generated [Refine.EqOracle] (E : Ext) (d : MpGo.Dec) (ty : Ty) (w : String) :
+    Generated.MpUnknownFns.unmarshalUnknownValue E d ty ≠ .panic w :=
+  MpUnknownFnsTie.dec_never_panics E d ty w
+
+/-- **"refinements may be approximated but are never narrowed or invented", for the encoder and the decoder
+COMPOSED, both as regenerated from the source**: what the translated `marshalUnknownValue` writes for an
+unknown value of a type other than the placeholder is one extension item, and the translated
+`unmarshalUnknownValue` decodes it to an unknown value of the same type whose refinement admits everything the
+original admitted (`Weaker`) and IS the original one as the wire format keeps it (`RfnKeptE`: nullness, numeric
+bounds and length bounds unchanged, the prefix unchanged or `SafeKnownPrefix` of its first 255 bytes). -/
+theorem unknown_roundtrip_generated (E : Ext) (vt : Ty) (r : Rfn) (hd : vt.isDyn = false) (h : rfnOK E vt r = true) :
+    ∃ toks it r', Generated.MpUnknownFns.marshalUnknownValue E ⟨vt, r⟩ [] = .ok toks ∧ MpGo.assemble toks = .ok it ∧
+      D16b.toV (Generated.MpUnknownFns.unmarshalUnknownValue E (.atItem it) vt) = .ok ⟨vt, .unk r'⟩ ∧
+      Weaker vt r' r ∧ RfnKeptE E r' r := by
+  obtain ⟨toks, it, r', hg, ha, hu, hw, hk⟩ := unknown_refinement_kept_partial_generated E vt r hd h
+  have hm : marshalUnknown E vt r = .ok it := by
+    have ht := marshal_unknown_generated E vt r
+    rw [hg] at ht; exact ht.symm.trans ha
+  exact ⟨toks, it, r', hg, ha, D16b.generated_decodes E vt vt r it _ hm hu, hw, hk⟩
+
+/-- `known_length_list_refused`, about the regenerated decoder: a refinement map describing a list of known
+length is never decoded to a value. -/
+theorem known_length_list_refused_generated (E : Ext) (e : Ty) (len n : Nat) (stream : List Item) (h1 : 1 < len)
+    (h2 : len ≤ maxExtLen) (hk : knownLenList (.list e) n stream = true) (hp : ∀ v ∈ stream, D16b.boundPlain v = true)
+    (v : Value) :
+    D16b.toV (Generated.MpUnknownFns.unmarshalUnknownValue E
+      (.atItem (.ext unknownWithRefinementsExt len (.map n) stream)) (.list e)) ≠ .ok v := by
+  intro hv
+  have h := unmarshal_unknown_generated_plain E unknownWithRefinementsExt len (.map n) stream (.list e) hp
+  rw [hv] at h
+  exact known_length_list_refused E e len n stream h1 h2 hk v (D16b.er_ok_inv h.symm)
+
+example : rfnOK E0 (.list .string) (.coll .f 1 5) = true ∧ Ty.isDyn (.list .string) = false := by decide
+example : rfnOK E0 .number (.num .f (some ⟨.fin false 1 0 64, true⟩) none) = true := by decide
+example : (∀ v ∈ [Item.int 1, .bool false, .int 5, .int 2, .int 6, .int 2], D16b.boundPlain v = true) ∧
+    knownLenList (.list .string) 3 [.int 1, .bool false, .int 5, .int 2, .int 6, .int 2] = true := by decide
 
 end C16
 end CtyModel
